@@ -118,12 +118,43 @@ def shard(args):
         if i % 2 == 0 or i % 4 == 1:
             if history.has_shared_job(spec):
                 spec = specgen.unshare_jobs(spec)      # own journey, steps and jobs per usage pattern
+        spring = None
+        if i % 4 == 3:
+            # the first usage pattern lives in a zone that moves its clock forward a few hours after the start of its input:
+            # its local series has one row more than there are UTC hours (the skipped hour is merged into the next one)
+            zone, (yy, mm, dd) = rng.choice([("Europe/Paris", (2025, 3, 29)), ("America/New_York", (2025, 3, 8)),
+                                             ("Australia/Sydney", (2025, 10, 4)), ("Europe/London", (2025, 3, 29))])
+            sp2 = copy.deepcopy(spec)
+            p0 = sp2["system"]["usage_patterns"][0]
+            c0 = sp2["patterns"][p0]["country"]
+            if sum(1 for q_ in sp2["patterns"].values() if q_["country"] == c0) > 1:
+                c0n = f"c{len(sp2['countries'])}"
+                sp2["countries"][c0n] = copy.deepcopy(sp2["countries"][c0])
+                sp2["patterns"][p0]["country"] = c0 = c0n
+            sp2["countries"][c0]["timezone"] = zone
+            nvals = rng.randint(24, 40)
+            sp2["patterns"][p0]["hourly_usage_journey_starts"] = {
+                "start": [yy, mm, dd, rng.randrange(12, 24)], "unit": "dimensionless",
+                "values": [specgen.gen_decimal(rng, 0.5, 500, 2) for _ in range(nvals)]}
+            if specgen.spec_is_safe(sp2, realsys.unit_info):
+                spec, spring = sp2, p0
         try:
             with watchdog(60):
                 live = Live(spec)
         except Exception:  # noqa
             continue
         ops = gen_changes(rng, live)
+        if spring:
+            # … and what is simulated is a change of that usage pattern's device list that brings no new member (another
+            # order, a device dropped or listed twice): the pattern is recomputed from its local-time input
+            devs = list(live.spec["patterns"][spring]["devices"])
+            if len(devs) >= 2:
+                new_devs = rng.choice([devs[::-1], devs[1:], devs + [devs[0]]])
+            else:
+                new_devs = devs + [devs[0]]
+            if new_devs == devs:
+                new_devs = devs + [devs[0]]
+            ops = [{"op": "setlist", "kind": "patterns", "name": spring, "attr": "devices", "items": new_devs}] + [o for o in ops if o["op"] == "setq" and o["kind"] != "patterns"][:1]
         if not ops:
             continue
         pats = list(live.spec["system"]["usage_patterns"])
@@ -141,7 +172,13 @@ def shard(args):
         kind = rng.choice(["first", "first", "interior", "interior", "pattern-end", "last", "before", "after", "naive", "failing"])
         if len(pats) >= 2 and i % 4 == 1:
             kind = rng.choice(["pattern-end", "pattern-end", "interior", "first"])
-        if kind == "pattern-end":
+        if spring:
+            kind = rng.choice(["after-clock-change", "after-clock-change", "first", "interior"])
+        if kind == "after-clock-change":
+            idx0 = live.rs.objs[spring].utc_hourly_usage_journey_starts.value.index
+            f0, l0 = idx0.min().to_pydatetime(), idx0.max().to_pydatetime()
+            date = min(l0, max(first, f0 + timedelta(hours=rng.randint(15, 23))))
+        elif kind == "pattern-end":
             # the last hours of the usage pattern that ends first (all usage patterns still active)
             date = max(first, min_last - timedelta(hours=rng.randint(0, 13)))
         elif kind == "first":
